@@ -179,6 +179,7 @@ class Machine:
         self.ienv = IntEnv()
         self.order = OrderStore()
         self.fctx = Ctx(finite=self.cfg.finite, nonzero=self._nonzero, fold_inexact=self.cfg.fold_inexact)
+        F.FOLD_INEXACT[0] = bool(self.cfg.fold_inexact)
         self.pc = []
         self.writes = []
         self.calls = []
